@@ -3,8 +3,14 @@ EXTENDS Concat, Json, IOUtils, SequencesExt
 CONSTANTS MaxPieces
 StrPieces  == {<<>>, CA, CNT \o CSQRT, CCRAB}
 CharPieces == {CA, CNT, CSQRT, CCRAB}
-MCLists == SeqsUpTo(StrPieces, MaxPieces) \cup SeqsUpTo(CharPieces, MaxPieces)
-MCSeps  == {<<>>, <<44>>, CSQRT \o CSQRT, CNT}
+\* second family: pieces and separators of 7..17 bytes (around the 8- and 16-byte block sizes), with a multi-byte
+\* character at the start, at the end, or straddling byte 8
+Run(n)     == [i \in 1..n |-> 97 + (i % 26)]
+LongPieces == {Run(7), Run(8), Run(9), Run(7) \o CNT, CNT \o Run(7), Run(9) \o CNT, Run(16), Run(17), <<>>, CA}
+LongSeps   == {<<44>>, Run(9), Run(7) \o CNT, Run(16)}
+LongLists  == SeqsUpTo(LongPieces, 2)
+MCLists == SeqsUpTo(StrPieces, MaxPieces) \cup SeqsUpTo(CharPieces, MaxPieces) \cup LongLists
+MCSeps  == {<<>>, <<44>>, CSQRT \o CSQRT, CNT} \cup LongSeps
 IsCharList(ps) == \A q \in 1..Len(ps) : ps[q] \in CharPieces
 
 \* program descriptors: which macro, element kind, separator kind
@@ -12,7 +18,9 @@ Desc(mac, ek, sk, sp, ps) == [m |-> "Concat", mac |-> mac, ek |-> ek, sk |-> sk,
                                exp |-> Ref(IF mac = "str_join" THEN "join" ELSE "concat", sp, ps)]
 Emit == LET sl == SetToSeq(SeqsUpTo(StrPieces, MaxPieces))
             cl == SetToSeq(SeqsUpTo(CharPieces, MaxPieces))
-            jl == SetToSeq(SeqsUpTo(StrPieces, MaxPieces) \X MCSeps)
+            jl == SetToSeq(SeqsUpTo(StrPieces, MaxPieces) \X {<<>>, <<44>>, CSQRT \o CSQRT, CNT})
+            ll == SetToSeq(LongLists)
+            lj == SetToSeq(LongLists \X LongSeps)
         IN ndJsonSerialize(IOEnv.OUT,
               [q \in 1..Len(sl) |-> Desc("str_concat", "str", "", <<>>, sl[q])]
            \o [q \in 1..Len(cl) |-> Desc("str_concat", "char", "", <<>>, cl[q])]
@@ -20,5 +28,9 @@ Emit == LET sl == SetToSeq(SeqsUpTo(StrPieces, MaxPieces))
            \o [q \in 1..Len(cl) |-> Desc("from_iter", "char", "", <<>>, cl[q])]
            \o [q \in 1..Len(sl) |-> Desc("slice_concat", "bytes", "", <<>>, sl[q])]
            \o [q \in 1..Len(jl) |-> Desc("str_join", "str", "str", jl[q][2], jl[q][1])]
-           \o [q \in 1..Len(jl) |-> Desc("str_join", "str", "char", jl[q][2], jl[q][1])])
+           \o [q \in 1..Len(jl) |-> Desc("str_join", "str", "char", jl[q][2], jl[q][1])]
+           \o [q \in 1..Len(ll) |-> Desc("str_concat", "str", "", <<>>, ll[q])]
+           \o [q \in 1..Len(ll) |-> Desc("from_iter", "str", "", <<>>, ll[q])]
+           \o [q \in 1..Len(ll) |-> Desc("slice_concat", "bytes", "", <<>>, ll[q])]
+           \o [q \in 1..Len(lj) |-> Desc("str_join", "str", "str", lj[q][2], lj[q][1])])
 =============================================================================
